@@ -331,6 +331,21 @@ func genC10(r *rng, n int, w *bufio.Writer) {
 			cands = append(cands, parts[2])
 		}
 		fmt.Fprintf(w, "c10.dnsrw %s %s = %s ## %q\n", wb(v), waddrs(cands...), ans, v)
+		if parts := strings.SplitN(v, ";", 3); len(parts) == 3 && r.chance(1, 3) {
+			// the same value text right afterwards under the OTHER structured record types (one process: a value
+			// accepted for one type must not change what the next parse of that text under another type gives)
+			for _, ty := range []string{"SRV", "SVCB", "HTTPS", "MX", "TXT"} {
+				if strings.EqualFold(parts[1], ty) {
+					continue
+				}
+				v2 := parts[0] + ";" + ty + ";" + parts[2]
+				ans2, rw2, _ := c10Go(v2)
+				fmt.Fprintf(w, "c10.dnsrw %s %s = %s ## %q (right after %q)\n", wb(v2), waddrs(v2, parts[2]), ans2, v2, v)
+				if rw2 != nil {
+					fmt.Fprintf(w, "c10.shape %s = T ## %q\n", wrewrite(rw2), v2)
+				}
+			}
+		}
 		if rw != nil {
 			fmt.Fprintf(w, "c10.shape %s = T ## %q\n", wrewrite(rw), v)
 		}
